@@ -130,7 +130,11 @@ def plan(tier, seed):
     for n in range(1, b['s6a'] + 1):
         jobs.append({'space': 'S6a', 'ops': n, 'weight': 40 * 2 ** n})
     for n in range(1, b['s6b'][0] + 1):
-        jobs.append({'space': 'S6b', 'ops': n, 'weight': 2 ** n * n ** 3 * 5})
+        k = 1 if n < 5 else 2 ** (n - 3) * (4 if b['s6b'][1] > 1 else 1)
+        k = min(k, 2 ** n)
+        for i in range(k):
+            jobs.append({'space': 'S6b', 'ops': n, 'shard': i, 'of': k,
+                         'weight': 2 ** n * n ** 3 * 5 / k})
     for p in range(1, b['s6c'] + 1):
         jobs.append({'space': 'S6c', 'period': p, 'weight': 2 ** p * 3000})
     for j in jobs:
@@ -548,7 +552,10 @@ def _insertions(toks, maxdev):
 def run_S6b(cx, job):
     maxdev = BOUNDS[job['tier']]['s6b'][1]
     seen = set()
-    for word in itertools.product(('and', 'or'), repeat=job['ops']):
+    for wi, word in enumerate(itertools.product(('and', 'or'),
+                                                repeat=job['ops'])):
+        if wi % job.get('of', 1) != job.get('shard', 0):
+            continue
         base = _word_tokens(word)
         for toks in _insertions(base, maxdev):
             tt = tuple(toks)
@@ -556,7 +563,8 @@ def run_S6b(cx, job):
                 continue
             seen.add(tt)
             text = _check_tokens(cx, 'S6b', toks)
-    cx.acc.sample('S6b', text)
+    if seen:
+        cx.acc.sample('S6b', text)
 
 
 def run_S6c(cx, job):
